@@ -75,7 +75,7 @@ type VC struct {
 	frameRoots   []Term
 	loopsBound   map[string]bool
 	loopEntry    map[string]*State
-	loopMod      map[string]map[string]bool
+	loopMod      map[string]map[string]string // loop -> modified memory key -> array sort
 	needRerun    bool
 	errSentinels map[string]bool
 	plainErrs    []Term
